@@ -99,7 +99,21 @@ def is_drop_stmt(s):
         return True      # stat->ops[...] flop counters: statistics only
     if s.k == 'Block' and all(is_drop_stmt(x) for x in s.c):
         return True
+    if s.k == 'If' and all(is_drop_stmt(x) for x in s.c[1:]) and pure_expr(s.c[0]):
+        return True      # if (cond) printf(...);  -- a guarded trace line
     return False
+
+
+PURE_FUNCS = {'fabs', 'fabsf', 'c_abs', 'c_abs1', 'z_abs', 'z_abs1', 'sqrt', 'strncmp', 'strcmp'}
+
+
+def pure_expr(e):
+    for n in e.walk():
+        if n.k == 'Assign' or (n.k == 'Unary' and n.a['op'] in ('++', '--')):
+            return False
+        if n.k == 'Call' and callee_name(n) not in PURE_FUNCS:
+            return False
+    return True
 
 
 def flatten(stmts):
@@ -139,15 +153,30 @@ def incr_form(e):
 
 
 class Comparer(object):
-    def __init__(self, fa, fb, letters, known_names):
+    def __init__(self, fa, fb, letters, known_names, twin=False):
         self.fa, self.fb = fa, fb
         self.letters = letters
         self.known = known_names
         self.ab = {}
         self.ba = {}
-        for (pa, pb) in zip(fa.params, fb.params):
-            self.ab[pa[1]] = pb[1]
-            self.ba[pb[1]] = pa[1]
+        self.ext_only = set()     # twin mode: variables of the extended twin (fb) that have no counterpart in the base twin
+        if twin:
+            bnames = {n: i for (n, i, t) in fb.params}
+            for (n, i, t) in fa.params:
+                if n in bnames:
+                    self.ab[i] = bnames[n]
+                    self.ba[bnames[n]] = i
+            anames = {n for (n, i, t) in fa.params} | {v.a['name'] for v in fa.locals.values()}
+            for (n, i, t) in fb.params:
+                if n not in anames:
+                    self.ext_only.add(i)
+            for vid, v in fb.locals.items():
+                if v.a['name'] not in anames:
+                    self.ext_only.add(vid)
+        else:
+            for (pa, pb) in zip(fa.params, fb.params):
+                self.ab[pa[1]] = pb[1]
+                self.ba[pb[1]] = pa[1]
         self.nodes = 0
         self.trial = False
         self.div = []
@@ -190,8 +219,40 @@ class Comparer(object):
         self.div.append({'why': why, 'a_line': a.line if a is not None else 0, 'b_line': b.line if b is not None else 0,
                          'a': pretty(a)[:200] if a is not None else '', 'b': pretty(b)[:200] if b is not None else ''})
 
+    def writes_only_ext(self, s):
+        """does statement s (of the extended twin) write nothing but extension-only variables / arrays?"""
+        wrote = False
+        for n in s.walk():
+            tgt = None
+            if n.k == 'Assign':
+                tgt = n.c[0]
+            elif n.k == 'Unary' and n.a['op'] in ('++', '--'):
+                tgt = n.c[0]
+            elif n.k == 'Var':
+                if n.a['id'] in self.ext_only:
+                    wrote = True
+                    continue
+                return False
+            elif n.k == 'Call':
+                name = callee_name(n)
+                if name in ('ifill', 'dfill', 'sfill', 'cfill', 'zfill'):
+                    tgt = n.c[1]
+                else:
+                    return False
+            elif n.k in ('Return', 'Break', 'Continue', 'Goto'):
+                return False
+            if tgt is not None:
+                from ..facts import root_ref
+                r = root_ref(tgt)
+                if r is None or r.a.get('id') not in self.ext_only:
+                    return False
+                wrote = True
+        return wrote
+
     def stmts(self, la, lb, ctx_a, ctx_b):
         la, lb = flatten(la), flatten(lb)
+        if self.ext_only:
+            lb = [x for x in lb if not (x.k not in ('If', 'For', 'While', 'Do', 'Switch') and self.writes_only_ext(x))]
         i = j = 0
         while i < len(la) and j < len(lb):
             snap = self.snapshot()
@@ -316,6 +377,12 @@ class Comparer(object):
     def expr(self, a, b, in_message=False):
         self.nodes += 1
         a, b = strip_trivial(a), strip_trivial(b)
+        if self.ext_only and b.k == 'Assign' and b.a['op'] == '=' and strip(b.c[0]).k == 'Ref' and strip(b.c[0]).a.get('id') in self.ext_only:
+            return self.expr(a, b.c[1], in_message)      # f = (j = 0)  vs  j = 0
+        if self.ext_only and b.k == 'Assign' and b.a['op'] == '=' and a.k == 'Assign' and strip(b.c[1]).k == 'Assign' \
+                and strip(strip(b.c[1]).c[0]).k == 'Ref' and strip(strip(b.c[1]).c[0]).a.get('id') in self.ext_only:
+            # j = (f = 0)  vs  j = 0
+            return self.expr(a, N('Assign', b.t, [b.c[0], strip(b.c[1]).c[1]], b.a, b.line, b.mac), in_message)
         if a.k != b.k:
             # x += 1 vs ++x inside expressions, or cast present on one side only (numeric casts to the element type)
             if a.k == 'Cast' and norm_type(a.t, 0, 0) in ('REAL', 'CPLX', 'int', 'int_t'):
@@ -418,10 +485,14 @@ def strip_trivial(e):
     return e
 
 
-def compare(fa, fb, letters, known=None):
-    """returns {'nodes': n, 'div': [divergences]}; empty list = equivalent"""
-    c = Comparer(fa, fb, letters, known)
-    if len(fa.params) != len(fb.params):
+def compare(fa, fb, letters, known=None, twin=False):
+    """returns {'nodes': n, 'div': [divergences]}; empty list = equivalent.
+    twin=True: fb is an extended copy of fa (ILU variants): parameters are matched by name and fb may contain additional
+    statements that write only variables/arrays that do not exist in fa (additive bookkeeping)."""
+    c = Comparer(fa, fb, letters, known, twin=twin)
+    if twin:
+        c.stmts(fa.body.c, fb.body.c, fa.body, fb.body)
+    elif len(fa.params) != len(fb.params):
         c.record(fa.body, fb.body, 'different number of parameters')
     else:
         c.stmts(fa.body.c, fb.body.c, fa.body, fb.body)
@@ -527,4 +598,33 @@ def run(chk, prog, cid, dunits=None, cfgname='tested', what='s=d, c=z exact'):
                             'SIBLING-DIVERGENCE %s (%s:%d) vs %s (%s:%d): %s: `%s` vs `%s`'
                             % (f.name, u.rel, d['a_line'], g.name, sib.rel, d['b_line'], d['why'], d['a'][:120], d['b'][:120]),
                             d, cfgname=cfgname)
+    return n
+
+
+def run_twins(chk, prog, cid, pairs, cfgname='tested'):
+    """pairs: (unit a, function a, unit b, function b, mode) with mode 'same' (two copies of one routine) or 'ext'
+    (b = a + additive bookkeeping on variables that do not exist in a)"""
+    chk.clause(cid, 'twin copies agree')
+    n = 0
+    for (ua, fa_, ub, fb_, mode) in pairs:
+        fa = prog.funcs.get((ua, fa_))
+        fb = prog.funcs.get((ub, fb_))
+        if fa is None or fb is None:
+            from ..run import AnalysisBroken
+            raise AnalysisBroken('twin pair %s:%s / %s:%s: function not found' % (ua, fa_, ub, fb_))
+        chk.saw(unit=ua, func=ua + ':' + fa_)
+        chk.saw(unit=ub, func=ub + ':' + fb_)
+        r = compare(fa, fb, {}, twin=(mode == 'ext'))
+        inst = '%s:%s~%s:%s' % (ua, fa_, ub, fb_)
+        n += 1
+        if not r['div']:
+            chk.ok(cid, inst, sample='%d nodes walked in parallel%s' % (r['nodes'], ' (extended twin)' if mode == 'ext' else ''))
+            continue
+        for d in r['div'][:3]:
+            key = 'twin:%s~%s:%s:%s|%s' % (fa_, fb_, d['why'].split(' (')[0], d['a'][:60], d['b'][:60])
+            key = re.sub(r'\s+', '_', key)
+            where = '%s:%d' % (ua, d['a_line']) if d['a_line'] else '%s:%d' % (ub, d['b_line'])
+            chk.violate(cid, key, where, fa_,
+                        'TWIN-DIVERGENCE %s (%s:%d) vs %s (%s:%d): %s: `%s` vs `%s`'
+                        % (fa_, ua, d['a_line'], fb_, ub, d['b_line'], d['why'], d['a'][:120], d['b'][:120]), d, cfgname=cfgname)
     return n
